@@ -289,7 +289,7 @@ Proof. exact update_serial_effect. Qed.
 Print Assumptions update_serial_stores_the_rfc1982_sum.
 
 (* no Python-level exception escapes: the partial operations of the model (`del self.nodes[name]` in
-   delete_rdataset - the KeyError of the defect fixed by ea85fed -, the assertion in _add) never fail *)
+   delete_rdataset - the KeyError of the defect fixed by 2d6b3bb -, the assertion in _add) never fail *)
 Theorem no_python_exception_escapes :
   forall c h z l, wfc c -> Forall spec_valid h -> Forall spec_named h -> RP c z l ->
   Forall (fun x => Forall not_internal (fst x)) (impl_hist c h z).
@@ -338,7 +338,7 @@ Proof.
 Qed.
 
 (* the last rdataset of a node deleted through the absolute spelling, in a relativized zone (the
-   sequence that raised KeyError before fix ea85fed), then the abort leaves the committed content *)
+   sequence that raised KeyError before fix 2d6b3bb), then the abort leaves the committed content *)
 Example ex_run :
   map (fun x => (map obs_of_out (fst x), snd x)) (impl_hist ex_cfg ex_hist []) =
   [ ([N], [(ex_www, [ex_a])]);
